@@ -114,7 +114,7 @@ func recBrief(r *shapes.Rec) string {
 var defaultWeights = map[string]int{
 	"save": 30, "update": 25, "resave": 5, "del": 10, "delall": 1, "sdel": 4, "many": 6, "bulk": 3,
 	"reads": 6, "sweep": 6, "hold": 0, "collect": 0, "reopen": 5, "abandon": 2, "flush": 0, "sleep": 0, "create": 2,
-	"getabsent": 4, "await": 0, "small": 5,
+	"getabsent": 4, "await": 0, "small": 5, "repair": 2, "misuse": 2,
 }
 
 type gen struct {
@@ -154,7 +154,7 @@ func GenOps(r *simrt.Rand, cfg *Config, pools *Pools, prof *Profile) []Op {
 		weights["abandon"] = 0
 	}
 	kinds := []string{"save", "update", "resave", "del", "delall", "sdel", "many", "bulk", "reads", "sweep", "hold", "collect",
-		"reopen", "abandon", "flush", "sleep", "create", "getabsent", "await", "small"}
+		"reopen", "abandon", "flush", "sleep", "create", "getabsent", "await", "small", "repair", "misuse"}
 	total := 0
 	for _, k := range kinds {
 		total += weights[k]
@@ -279,6 +279,10 @@ func (g *gen) genOp(k string) Op {
 		return Op{K: "reads"}
 	case "sweep":
 		return Op{K: "sweep"}
+	case "repair":
+		return Op{K: "repair"}
+	case "misuse":
+		return Op{K: "misuse", Mode: []string{"assignall", "assign", "assignone", "assignunique"}[r.Intn(4)]}
 	case "getabsent":
 		return Op{K: "getabsent", Lid: r.Intn(g.next + 2)}
 	case "hold":
@@ -328,7 +332,7 @@ func (g *gen) query(held bool) *Query {
 	q := &Query{First: g.cmp()}
 	n := 0
 	if r.Chance(1, 3) {
-		n = 1 + r.Intn(2)
+		n = 1 + r.Intn(3)
 	}
 	for i := 0; i < n; i++ {
 		q.Rest = append(q.Rest, Conj{Or: r.Chance(1, 3), C: g.cmp()})
